@@ -565,6 +565,7 @@ type ApplyResult struct {
 	Err    error  // error (or *callPanic) returned by the main call of the operation
 	Clause string // non-empty: the operation itself violated an API-level expectation
 	Detail string
+	Extra  string // batch: what Batch.Get returned for every universe key after every staging call
 }
 
 const poisonByte = 0xEE
@@ -769,6 +770,8 @@ func (w *World) applyBatch(op Op) ApplyResult {
 	staged := map[string]*string{}
 	var order []string
 	var res ApplyResult
+	var extra strings.Builder
+	defer func() { res.Extra = extra.String() }()
 	err := w.guard(func() error {
 		b := w.DB.NewBatch(kv.BatchOptions{Sync: op.Arg == 1})
 		committed := false
@@ -806,6 +809,11 @@ func (w *World) applyBatch(op Op) ApplyResult {
 				staged[s.Key] = nil
 				order = append(order, s.Key)
 			}
+			for _, k := range w.Keys {
+				v, err := b.Get([]byte(k))
+				extra.WriteString(fmt.Sprintf("%s=%s/%s ", k, short(string(v)), errClass(err)))
+			}
+			extra.WriteString("| ")
 			if w.Adversarial {
 				// slices returned by Batch.Get are the caller's too: one is kept (it must not change when the key is
 				// staged again), a second one is scribbled over (the staged value must not follow)
